@@ -214,8 +214,10 @@ static inline double cmb_timeseries_max(const struct cmb_timeseries *tsp)
 
 /**
  * @brief  Calculate and return the median of the time series, sample values
- *         weighted by duration. Uses linear interpolation for the median value
- *         at 50 % of the summed weights.
+ *         weighted by duration: the sample value at which the cumulative
+ *         duration (in order of increasing value) reaches 50 % of the total,
+ *         so that at most half of the total duration was spent below it and
+ *         at most half above it.
  *
  * Call `cmb_dataset_median((struct cmb_dataset *)tsp, ...)` for unweighted.
  *
